@@ -138,3 +138,43 @@ var Magics = [][]byte{
 	[]byte("\x00\x00\x00\x1cftypavif\x00\x00\x00\x00avifmif1miaf"), []byte("\x89PNG\r\n\x1a\n"), []byte("<x:xmpmeta xmlns:x=\"adobe:ns:meta/\">"),
 	[]byte("II*\x00\x10\x00\x00\x00CR\x02\x00"), []byte("IIU\x00\x18\x00\x00\x00\x88\xe7\x74\xd8"),
 }
+
+// Embedding is one container holding the same Exif payload in both byte orders
+// with identical surroundings.
+type Embedding struct {
+	Name    string   `json:"name"`
+	II      []byte   `json:"ii"`
+	MM      []byte   `json:"mm"`
+	Entries []string `json:"entries"` // decode entry points that correspond to this container
+	Type    string   `json:"type"`    // expected image type: tiff | jpeg | png | cr3 | heif
+}
+
+// Embed wraps f in every container of property C06. f must have been generated with Options.Split for the cr3-split variant.
+func Embed(rt *rapid.T, f *ExifFile) []Embedding {
+	var out []Embedding
+	out = append(out, Embedding{"tiff", f.Enc.II, f.Enc.MM, []string{"Decode", "DecodeTiff", "ExifParse"}, "tiff"})
+	if len(f.Enc.II) <= 65000 {
+		w := JPEGWrap(rt)
+		out = append(out, Embedding{"jpeg", w(f.Enc.II), w(f.Enc.MM), []string{"Decode", "DecodeJPEG"}, "jpeg"})
+	}
+	pw := PNGWrap(rt)
+	out = append(out, Embedding{"png", pw(f.Enc.II), pw(f.Enc.MM), []string{"DecodePng"}, "png"})
+	cw := CR3Wrap(rt)
+	a, _ := cw([4][]byte{f.Enc.II, nil, nil, nil})
+	b, _ := cw([4][]byte{f.Enc.MM, nil, nil, nil})
+	out = append(out, Embedding{"cr3", a, b, []string{"Decode", "DecodeCR3"}, "cr3"})
+	if f.Split[0] != nil {
+		var ii, mm [4][]byte
+		for i, e := range f.Split {
+			if e != nil {
+				ii[i], mm[i] = e.II, e.MM
+			}
+		}
+		a, _ := cw(ii)
+		b, _ := cw(mm)
+		out = append(out, Embedding{"cr3-split", a, b, []string{"Decode", "DecodeCR3"}, "cr3"})
+	}
+	hw := HEIFWrap(rt)
+	out = append(out, Embedding{"heif", hw(f.Enc.II), hw(f.Enc.MM), []string{"Decode", "DecodeHeif"}, "heif"})
+	return out
+}
